@@ -5,7 +5,10 @@ import ControlModel.Spec.C09
 namespace Driver.C09
 open EnvM Driver.EnvCommon
 
+/-- The model runs on `i.hooks` = the scripts pushed through `(*Call).Call()`'s exit logic (`codeCall`);
+    the property is judged on the hooks with the ways forgotten (a failing execution is a failing
+    execution) and on the ways the trace names. -/
 def processLine (line : String) : String :=
-  processWith (fun i tr => (specC09 i.hooks i.reqs tr, "-")) line
+  processWithRaw (fun i tr impl => (specC09K i.khooks i.reqs tr (parseWays impl), "-")) line
 
 end Driver.C09
